@@ -3,6 +3,7 @@
 (* Value domain of the machine and the semantics of the closed element     *)
 (* core on it.  Values are records distinguished by FIELD NAME:            *)
 (*    [i |-> n]      integer, |n| <= IntBound                              *)
+(*    [s |-> <<..>>] string: its code points                                *)
 (*    [l |-> <<..>>] list (eager and lazy lists are one kind here: the     *)
 (*                   specification fixes what a list DENOTES)              *)
 (*    [f |-> ...]    function value (lambda or named function)             *)
@@ -15,9 +16,12 @@ EXTENDS VyParser
 IntBound == 100000000
 VI(n) == [i |-> n]
 VL(s) == [l |-> s]
+VS(s) == [s |-> s]
 UNDEF(w) == [u |-> w]
 IsI(v) == "i" \in DOMAIN v
 IsL(v) == "l" \in DOMAIN v
+IsS(v) == "s" \in DOMAIN v
+IsSc(v) == IsI(v) \/ IsS(v)          \* a scalar
 IsF(v) == "f" \in DOMAIN v
 IsU(v) == "u" \in DOMAIN v
 
@@ -38,13 +42,14 @@ Clean(v) == IF HasU(v) /\ ~IsU(v) THEN UNDEF("inner") ELSE v
 (* truthiness                                                              *)
 
 (* Python bool(x) of a value as `and`/`or`/`not` see it *)
-PyTruthy(v) == IF IsI(v) THEN v.i # 0 ELSE IF IsL(v) THEN Len(v.l) > 0 ELSE TRUE
+PyTruthy(v) == IF IsI(v) THEN v.i # 0 ELSE IF IsL(v) THEN Len(v.l) > 0 ELSE IF IsS(v) THEN Len(v.s) > 0 ELSE TRUE
 
 (* `if boolify(x, ctx):` -- a list is truthy iff non-empty (its vectorised
    boolify is a non-empty list), with flag t iff any item is truthy *)
 CondTrue(v, tflag) ==
     IF IsI(v) THEN v.i # 0
     ELSE IF IsL(v) THEN (IF tflag THEN \E k \in 1..Len(v.l) : PyTruthy(v.l[k]) ELSE Len(v.l) > 0)
+    ELSE IF IsS(v) THEN Len(v.s) > 0
     ELSE TRUE
 
 ---------------------------------------------------------------------------
@@ -58,19 +63,35 @@ ListOpen == <<10216, 32>>      \* "⟨ "
 ListClose == <<32, 10217>>     \* " ⟩"
 ListSep == <<32, 124, 32>>     \* " | "
 
-RECURSIVE Str(_)
+(* vy_repr: inside a list a string is shown between back-quotes, its own back-quotes escaped *)
+RECURSIVE EscBt(_)
+EscBt(s) == IF s = <<>> THEN <<>> ELSE (IF Head(s) = 96 THEN <<92, 96>> ELSE <<Head(s)>>) \o EscBt(Tail(s))
+RECURSIVE Repr(_)
+RECURSIVE JoinRepr(_)
+JoinRepr(vs) ==
+    IF vs = <<>> THEN <<>>
+    ELSE IF Len(vs) = 1 THEN Repr(vs[1])
+    ELSE Repr(vs[1]) \o ListSep \o JoinRepr(Tail(vs))
+Repr(v) ==
+    IF IsI(v) THEN IntStr(v.i)
+    ELSE IF IsS(v) THEN <<96>> \o EscBt(v.s) \o <<96>>
+    ELSE IF IsL(v) THEN ListOpen \o JoinRepr(v.l) \o ListClose
+    ELSE <<63>>
+(* vy_str: a string on its own is its text *)
+Str(v) == IF IsS(v) THEN v.s ELSE Repr(v)
+ScStr(v) == IF IsI(v) THEN IntStr(v.i) ELSE v.s          \* str() of a scalar
+
 RECURSIVE JoinStr(_, _)
 JoinStr(vs, sep) ==
     IF vs = <<>> THEN <<>>
     ELSE IF Len(vs) = 1 THEN Str(vs[1])
     ELSE Str(vs[1]) \o sep \o JoinStr(Tail(vs), sep)
-Str(v) ==
-    IF IsI(v) THEN IntStr(v.i)
-    ELSE IF IsL(v) THEN ListOpen \o JoinStr(v.l, ListSep) \o ListClose
-    ELSE <<63>>
 
 RECURSIVE Printable(_)
-Printable(v) == IsI(v) \/ (IsL(v) /\ \A k \in 1..Len(v.l) : Printable(v.l[k]))
+Printable(v) == IsI(v) \/ IsS(v) \/ (IsL(v) /\ \A k \in 1..Len(v.l) : Printable(v.l[k]))
+
+RECURSIVE HasS(_)
+HasS(v) == IsS(v) \/ (IsL(v) /\ \E k \in 1..Len(v.l) : HasS(v.l[k]))
 
 ---------------------------------------------------------------------------
 (* vectorisation skeleton (vyxal/elements.py vectorise, vy_zip zero fill)  *)
@@ -92,13 +113,31 @@ DyInt(e, a, b) ==
       [] e = "idiv" -> IF b > 0 THEN VI(a \div b) ELSE IF b < 0 THEN VI((-a) \div (-b)) ELSE VI(0)
       [] OTHER -> UNDEF("dyad")
 
+(* text against text (a number is its decimal text): concatenation and code-point order *)
+RECURSIVE SeqLt(_, _)
+SeqLt(a, b) == IF b = <<>> THEN FALSE
+               ELSE IF a = <<>> THEN TRUE
+               ELSE IF Head(a) < Head(b) THEN TRUE
+               ELSE IF Head(a) > Head(b) THEN FALSE
+               ELSE SeqLt(Tail(a), Tail(b))
+B01(p) == VI(IF p THEN 1 ELSE 0)
+DyStr(e, a, b) ==
+    CASE e = "add" -> VS(a \o b)
+      [] e = "eq" -> B01(a = b)
+      [] e = "lt" -> B01(SeqLt(a, b))
+      [] e = "gt" -> B01(SeqLt(b, a))
+      [] e = "le" -> B01(~SeqLt(b, a))
+      [] e = "ge" -> B01(~SeqLt(a, b))
+      [] OTHER -> UNDEF("dyad-on-strings")
+
 RECURSIVE Dy(_, _, _)
 Dy(e, a, b) ==
     IF IsI(a) /\ IsI(b) THEN DyInt(e, a.i, b.i)
+    ELSE IF IsSc(a) /\ IsSc(b) THEN DyStr(e, ScStr(a), ScStr(b))
     ELSE IF IsL(a) /\ IsL(b)
          THEN VL([k \in 1..MaxN(Len(a.l), Len(b.l)) |-> Dy(e, Item0(a, k), Item0(b, k))])
-    ELSE IF IsL(a) /\ IsI(b) THEN VL([k \in 1..Len(a.l) |-> Dy(e, a.l[k], b)])
-    ELSE IF IsI(a) /\ IsL(b) THEN VL([k \in 1..Len(b.l) |-> Dy(e, a, b.l[k])])
+    ELSE IF IsL(a) /\ IsSc(b) THEN VL([k \in 1..Len(a.l) |-> Dy(e, a.l[k], b)])
+    ELSE IF IsSc(a) /\ IsL(b) THEN VL([k \in 1..Len(b.l) |-> Dy(e, a, b.l[k])])
     ELSE UNDEF("dyad-types")
 
 RECURSIVE RangeSeq(_, _)
@@ -127,6 +166,7 @@ RECURSIVE Mo(_, _)
 Mo(e, a) ==
     IF IsI(a) THEN MoInt(e, a.i)
     ELSE IF IsL(a) THEN VL([k \in 1..Len(a.l) |-> Mo(e, a.l[k])])
+    ELSE IF IsS(a) THEN UNDEF("numeric-monad-on-string")
     ELSE UNDEF("monad-types")
 
 ---------------------------------------------------------------------------
@@ -183,11 +223,17 @@ VecMonads == {"inc", "dec", "neg", "dbl", "r1", "r0", "sq", "sign", "abs", "pari
 Monad(e, a) ==
     CASE e \in VecMonads -> Mo(e, a)
       [] e = "even" -> IF IsI(a) THEN VI(IF a.i % 2 = 0 THEN 1 ELSE 0)          \* NOT vectorising: a list's length
-                      ELSE IF IsL(a) THEN VI(IF Len(a.l) % 2 = 0 THEN 1 ELSE 0) ELSE UNDEF("even-of-function")
+                      ELSE IF IsL(a) THEN VI(IF Len(a.l) % 2 = 0 THEN 1 ELSE 0)
+                      ELSE IF IsS(a) THEN VI(IF Len(a.s) % 2 = 0 THEN 1 ELSE 0) ELSE UNDEF("even-of-function")
       [] e = "div3" -> IF IsI(a) THEN VI(IF a.i % 3 = 0 THEN 1 ELSE 0)
-                      ELSE IF IsL(a) THEN VI(IF Len(a.l) = 1 THEN 1 ELSE 0) ELSE UNDEF("div3-of-function")
-      [] e = "hrem" -> IF IsL(a) THEN VL(IF a.l = <<>> THEN <<>> ELSE Tail(a.l)) ELSE UNDEF("head-remove-of-scalar")
-      [] e = "trem" -> IF IsL(a) THEN VL(IF a.l = <<>> THEN <<>> ELSE SubSeq(a.l, 1, Len(a.l) - 1)) ELSE UNDEF("tail-remove-of-scalar")
+                      ELSE IF IsL(a) THEN VI(IF Len(a.l) = 1 THEN 1 ELSE 0)
+                      ELSE IF IsS(a) THEN VI(IF Len(a.s) = 1 THEN 1 ELSE 0) ELSE UNDEF("div3-of-function")
+      [] e = "hrem" -> IF IsL(a) THEN VL(IF a.l = <<>> THEN <<>> ELSE Tail(a.l))
+                      ELSE IF IsS(a) THEN (IF a.s = <<>> THEN VL(<<>>) ELSE VS(Tail(a.s)))     \* "" gives the empty LIST
+                      ELSE UNDEF("head-remove-of-scalar")
+      [] e = "trem" -> IF IsL(a) THEN VL(IF a.l = <<>> THEN <<>> ELSE SubSeq(a.l, 1, Len(a.l) - 1))
+                      ELSE IF IsS(a) /\ a.s # <<>> THEN VS(SubSeq(a.s, 1, Len(a.s) - 1))
+                      ELSE UNDEF("tail-remove-of-scalar")
       [] e \in {"max", "min"} ->
            IF ~IsL(a) THEN UNDEF("max-of-scalar")
            ELSE LET fl == Flatten(a.l)
@@ -218,11 +264,13 @@ Monad(e, a) ==
       [] e = "r0" -> Mo("r0", a)
       [] e = "wrap" -> VL(<<a>>)
       [] e = "sum" -> IF IsL(a) THEN SumList(a.l) ELSE UNDEF("sum-of-scalar")
-      [] e = "len" -> IF IsL(a) THEN VI(Len(a.l)) ELSE UNDEF("len-of-scalar")
-      [] e = "head" -> IF IsL(a) THEN (IF a.l = <<>> THEN VI(0) ELSE a.l[1]) ELSE UNDEF("head-of-scalar")
-      [] e = "tail" -> IF IsL(a) THEN (IF a.l = <<>> THEN VI(0) ELSE a.l[Len(a.l)]) ELSE UNDEF("tail-of-scalar")
-      [] e = "flat" -> IF IsL(a) THEN VL(Flatten(a.l)) ELSE UNDEF("flatten-of-scalar")
-      [] e = "rev" -> IF IsL(a) THEN VL(RevSeq(a.l)) ELSE UNDEF("reverse-of-scalar")
+      [] e = "len" -> IF IsL(a) THEN VI(Len(a.l)) ELSE IF IsS(a) THEN VI(Len(a.s)) ELSE UNDEF("len-of-scalar")
+      [] e = "head" -> IF IsL(a) THEN (IF a.l = <<>> THEN VI(0) ELSE a.l[1])
+                      ELSE IF IsS(a) THEN VS(IF a.s = <<>> THEN <<>> ELSE <<a.s[1]>>) ELSE UNDEF("head-of-scalar")
+      [] e = "tail" -> IF IsL(a) THEN (IF a.l = <<>> THEN VI(0) ELSE a.l[Len(a.l)])
+                      ELSE IF IsS(a) THEN VS(IF a.s = <<>> THEN <<>> ELSE <<a.s[Len(a.s)]>>) ELSE UNDEF("tail-of-scalar")
+      [] e = "flat" -> IF IsL(a) /\ ~HasS(a) THEN VL(Flatten(a.l)) ELSE UNDEF("flatten-domain")
+      [] e = "rev" -> IF IsL(a) THEN VL(RevSeq(a.l)) ELSE IF IsS(a) THEN VS(RevSeq(a.s)) ELSE UNDEF("reverse-of-scalar")
       [] e = "uniq" -> IF IsL(a) THEN VL(Uniq(a.l, <<>>)) ELSE UNDEF("uniq-of-scalar")
       [] e = "sort" -> IF IsL(a) /\ AllInts(a.l) THEN VL(SortInts(a.l)) ELSE UNDEF("sort-domain")
       [] e = "not" -> IF IsF(a) THEN UNDEF("not-fn") ELSE VI(IF PyTruthy(a) THEN 0 ELSE 1)
@@ -230,26 +278,30 @@ Monad(e, a) ==
 
 Dyad(e, a, b) ==     \* a = lhs (deeper), b = rhs (top)
     CASE e \in {"add", "sub", "mul", "eq", "lt", "gt", "le", "ge", "mod", "idiv"} -> Dy(e, a, b)
-      [] e = "ne" -> IF IsF(a) \/ IsF(b) THEN UNDEF("ne-fn") ELSE VI(IF a = b THEN 0 ELSE 1)     \* NOT vectorising
+      [] e = "ne" -> IF IsF(a) \/ IsF(b) THEN UNDEF("ne-fn")                                    \* NOT vectorising
+                    ELSE IF IsSc(a) /\ IsSc(b) /\ (IsS(a) \/ IsS(b)) THEN B01(ScStr(a) # ScStr(b))
+                    ELSE VI(IF a = b THEN 0 ELSE 1)
       [] e = "dmax" -> IF IsI(a) /\ IsI(b) THEN (IF a.i > b.i THEN a ELSE b) ELSE UNDEF("max-types")
       [] e = "dmin" -> IF IsI(a) /\ IsI(b) THEN (IF a.i < b.i THEN a ELSE b) ELSE UNDEF("min-types")
       [] e = "absdiff" -> IF IsI(a) /\ IsI(b) THEN MkI(Abs(a.i - b.i)) ELSE UNDEF("absdiff-types")
       \* prepend is merge with the operands exchanged (PrependIsMerge: the type table always hits)
       [] e = "prepend" -> IF IsL(a) /\ IsL(b) THEN VL(b.l \o a.l)
-                         ELSE IF IsL(b) /\ IsI(a) THEN VL(Append(b.l, a))
-                         ELSE IF IsI(b) /\ IsL(a) THEN VL(<<b>> \o a.l)
+                         ELSE IF IsL(b) /\ IsSc(a) THEN VL(Append(b.l, a))
+                         ELSE IF IsSc(b) /\ IsL(a) THEN VL(<<b>> \o a.l)
+                         ELSE IF IsSc(a) /\ IsSc(b) /\ (IsS(a) \/ IsS(b)) THEN VS(ScStr(b) \o ScStr(a))
                          ELSE UNDEF("prepend-types")
       \* membership / count: with one list the list is searched; with two, the deeper one
       [] e = "contains" -> IF IsL(a) /\ ~IsF(b) THEN VI(IF \E k \in 1..Len(a.l) : a.l[k] = b THEN 1 ELSE 0)
-                          ELSE IF IsI(a) /\ IsL(b) THEN VI(IF \E k \in 1..Len(b.l) : b.l[k] = a THEN 1 ELSE 0)
+                          ELSE IF IsSc(a) /\ IsL(b) THEN VI(IF \E k \in 1..Len(b.l) : b.l[k] = a THEN 1 ELSE 0)
                           ELSE UNDEF("contains-types")
       [] e = "count" -> IF IsL(a) /\ ~IsF(b) THEN VI(CountOf(a.l, b))
-                       ELSE IF IsI(a) /\ IsL(b) THEN VI(CountOf(b.l, a))
+                       ELSE IF IsSc(a) /\ IsL(b) THEN VI(CountOf(b.l, a))
                        ELSE UNDEF("count-types")
       [] e = "pair" -> VL(<<a, b>>)
       [] e = "merge" -> IF IsL(a) /\ IsL(b) THEN VL(a.l \o b.l)
-                    ELSE IF IsL(a) /\ IsI(b) THEN VL(Append(a.l, b))
-                    ELSE IF IsI(a) /\ IsL(b) THEN VL(<<a>> \o b.l)
+                    ELSE IF IsL(a) /\ IsSc(b) THEN VL(Append(a.l, b))
+                    ELSE IF IsSc(a) /\ IsL(b) THEN VL(<<a>> \o b.l)
+                    ELSE IF IsSc(a) /\ IsSc(b) /\ (IsS(a) \/ IsS(b)) THEN VS(ScStr(a) \o ScStr(b))
                     ELSE UNDEF("merge-types")
       [] e = "and" -> IF IsF(a) \/ IsF(b) THEN UNDEF("and-fn") ELSE IF PyTruthy(a) THEN b ELSE a
       [] e = "or" -> IF IsF(a) \/ IsF(b) THEN UNDEF("or-fn") ELSE IF PyTruthy(a) THEN a ELSE b
